@@ -2,6 +2,7 @@ package gen
 
 import (
 	"math"
+	"strings"
 	"time"
 )
 
@@ -17,6 +18,7 @@ const (
 	PBigInt  // integers beyond 2^53 (never indexed, never compared with floats by construction of literals)
 	PEdge    // values whose order-preserving encodings end in 0xFF / 0x00 bytes, and their neighbours (inside the key domain)
 	PTimeFar // times anywhere between year 1 and 9999 (outside the UnixNano range: compared and sorted, never indexed)
+	PLongStr // strings of 300 to 8200 bytes with common prefixes of 1023 / 1024 / 8192 bytes (indexable: far below the stores' key limits)
 	nProfiles
 )
 
@@ -30,6 +32,15 @@ var edgeValues = []any{
 	"a\xff", "a\xff\xff", "a\xfe", "b", "a", "a\x00", "\xff",
 	uint64(1<<53 - 1), uint64(255),
 }
+
+var k1024, q8192 = strings.Repeat("k", 1024), strings.Repeat("q", 8192)
+
+// longStrings differ only behind a long common prefix (or are a prefix of one another). Database-level
+// histories stay around 1 KB (hundreds of documents must fit one badger transaction); LongStringsAll adds the
+// 8 KB class for index-level and comparison-level engines.
+var longStrings = []string{k1024[:1023], k1024, k1024 + "a", k1024 + "b", k1024 + "a\x00", k1024 + "\xff", strings.Repeat("m", 300), "k", "l", ""}
+
+var LongStringsAll = append(append([]string{}, longStrings...), q8192, q8192+"x", q8192+"y", q8192[:8191])
 
 type Profile struct {
 	Kind   int
@@ -197,6 +208,8 @@ func (r *Rng) Value(p Profile) any {
 		return int64(r.Range(-3, 12))
 	case PEdge:
 		return Pick(r, edgeValues)
+	case PLongStr:
+		return Pick(r, longStrings)
 	case PTimeFar:
 		if r.P(30) {
 			return r.Time()
@@ -207,7 +220,7 @@ func (r *Rng) Value(p Profile) any {
 }
 
 func (r *Rng) Profile() Profile {
-	kinds := []int{PSmallInt, PSmallInt, PMixedNum, PMixedNum, PString, PTime, PMixed, PMixed, PArray, PBoolNil, PSmallInt, PMixedNum, PBigInt, PEdge, PTimeFar}
+	kinds := []int{PSmallInt, PSmallInt, PMixedNum, PMixedNum, PString, PTime, PMixed, PMixed, PArray, PBoolNil, PSmallInt, PMixedNum, PBigInt, PEdge, PTimeFar, PLongStr}
 	p := Profile{Kind: Pick(r, kinds)}
 	switch r.Intn(4) {
 	case 0:
